@@ -1,5 +1,6 @@
 import Andes.Model.Hex
 import Andes.Model.TdsDriver
+import Andes.Model.IoDriver
 import Andes.Model.PINumericDriver
 import Andes.Model.AssembleDriver
 import Andes.Model.PerUnitDriver
@@ -40,6 +41,7 @@ def handle (line : String) : String :=
   | "pu" :: args => Andes.PerUnit.handlePu args | "coef" :: args => Andes.PerUnit.handleCoef args
   | "pfg" :: args => Andes.PFlow.handlePfg args | "pfu" :: args => Andes.PFlow.handlePfu args
   | "pinum" :: args => Andes.PINumeric.handlePinum args
+  | "ios" :: args => Andes.Io.handleIos args | "iol" :: args => Andes.Io.handleIol args | "mpb" :: args => Andes.Mpc.handleMpb args | "mpg" :: args => Andes.Mpc.handleMpg args | "mpl" :: args => Andes.Mpc.handleMpl args | "mxl" :: args => Andes.Mpc.handleMxl args | "mxp" :: args => Andes.Mpc.handleMxp args | "rwl" :: args => Andes.Mpc.handleRwl args | "rwx" :: args => Andes.Mpc.handleRwx args | "rw3" :: args => Andes.Mpc.handleRw3 args
   | _ => "bad-op"
 
 partial def loop (h : IO.FS.Stream) : IO Unit := do
